@@ -163,7 +163,7 @@ Example c20_lmtp_example :
   let cf := mk_lc 1000 10 1000%N in
   l_mode (fst (lrun cf l_init [Data (S_ "LHLO x") true; Data (S_ "MAIL FROM:<a@b>") true;
                                Data (S_ "RCPT TO:<u@v>") true; Data (S_ "DATA") true; Data (S_ "Subject: x") true]))
-  = LData 10 /\
+  = LData 10 false /\
   l_done (fst (lrun cf l_init [Data (S_ "LHLO x") true; Data (S_ "MAIL FROM:<a@b>") true;
                                Data (S_ "RCPT TO:<u@v>") true; Data (S_ "DATA") true; Timeout; Timeout])) = true.
 Proof. vm_compute. split; reflexivity. Qed.
